@@ -92,3 +92,39 @@ Proof.
   - vm_compute. reflexivity.
 Qed.
 Print Assumptions C07_config_tree_repeat_refuted.
+
+(* F7e (repaired).  A stage variable whose value holds %(replica)s together with another reference: the pinned
+   instance(is_primitive=True) ([flatten_pinned]) stored it PARTIALLY resolved - the other reference frozen to its
+   stage-level value - while the running experiment (replicate() -> instance(is_primitive=False)) keeps the value as
+   written and lets every component resolve it in its own scope.  With a component that defines `base` itself, replica 0
+   resolves %(workdir)s to /scratch/run-0 in the package (and in the experiment that wrote the instance) but to
+   /global-base/run-0 in the document the pinned code stored; the repaired instance() ([flatten]) stores the value as
+   written and the reloaded document resolves it like the package. *)
+Definition w_sv_comp : jv :=
+  JDict [("name", JStr "c"); ("stage", JInt 0);
+         ("command", JDict [("executable", JStr "echo"); ("arguments", JStr "%(workdir)s")]);
+         ("variables", JDict [("base", JStr "/scratch"); ("replica", JInt 0)])].
+Definition w_sv_doc : doc :=
+  {| d_blueprint := JDict [];
+     d_variables := JDict [("default", JDict [("global", JDict [("base", JStr "/global-base")]);
+                                              ("stages", JDict [("0", JDict [("workdir", JStr "%(base)s/run-%(replica)s")])])])];
+     d_components := [JDict [("name", JStr "c"); ("stage", JInt 0);
+                             ("command", JDict [("executable", JStr "echo"); ("arguments", JStr "%(workdir)s")]);
+                             ("variables", JDict [("base", JStr "/scratch")])]] |}.
+(* what replica 0 of the component resolves %(workdir)s to, in a document *)
+Definition w_sv_resolved (d : doc) : res string :=
+  interp_string (layer_vars (var_layers d (JDict []) DEF "0" w_sv_comp)) "%(workdir)s".
+
+Theorem C07_stage_replica_pinned_refuted : exists d envs u p fd fdp,
+  flatten d envs u p = Ok fd /\ flatten_pinned d envs u p = Ok fdp /\
+  get_path [DEF; "stages"; "0"; "workdir"] (d_variables (f_doc fdp)) = Some (JStr "/global-base/run-%(replica)s") /\
+  get_path [DEF; "stages"; "0"; "workdir"] (d_variables (f_doc fd)) = Some (JStr "%(base)s/run-%(replica)s") /\
+  w_sv_resolved d = Ok "/scratch/run-0" /\
+  w_sv_resolved (f_doc fdp) = Ok "/global-base/run-0" /\
+  w_sv_resolved (f_doc fd) = Ok "/scratch/run-0".
+Proof.
+  exists w_sv_doc, (JDict []), (JDict []), DEF. do 2 eexists.
+  split; [vm_compute; reflexivity|]. split; [vm_compute; reflexivity|].
+  repeat split; vm_compute; reflexivity.
+Qed.
+Print Assumptions C07_stage_replica_pinned_refuted.
